@@ -176,6 +176,7 @@ func TestC15_LimitsAndTempFiles(t *testing.T) {
 		}
 		invocations := 0
 		sawSpill := false
+		notSpilled := ""
 		bodyOK := true
 		handler := http.HandlerFunc(func(w http.ResponseWriter, r *http.Request) {
 			invocations++
@@ -197,6 +198,17 @@ func TestC15_LimitsAndTempFiles(t *testing.T) {
 			}
 			if len(tempFiles()) > 0 {
 				sawSpill = true
+			}
+			// bytes the response buffer accepted (a write that would cross the maximum is refused as a whole)
+			accepted := int64(0)
+			for _, n := range s.writes {
+				if s.maxResp > 0 && accepted+int64(n) > s.maxResp {
+					continue
+				}
+				accepted += int64(n)
+			}
+			if accepted > s.memResp && len(tempFiles()) == 0 {
+				notSpilled = fmt.Sprintf("attempt %d wrote %d accepted response bytes, more than MemResponseBodyBytes=%d, but no temporary file exists: the body was not spilled to disk", invocations, accepted, s.memResp)
 			}
 		})
 		opts := []buffer.Option{buffer.MemRequestBodyBytes(s.memReq), buffer.MaxRequestBodyBytes(s.maxReq), buffer.MemResponseBodyBytes(s.memResp), buffer.MaxResponseBodyBytes(s.maxResp)}
@@ -224,6 +236,9 @@ func TestC15_LimitsAndTempFiles(t *testing.T) {
 			b.ServeHTTP(rec, req)
 		}()
 		left := tempFiles()
+		if notSpilled != "" {
+			t.Fatalf("%s (%s)", notSpilled, s)
+		}
 		reqOver := s.maxReq > 0 && int64(s.reqBody) > s.maxReq
 		respOver := s.maxResp > 0 && int64(total) > s.maxResp
 		// expected number of attempts when nothing is over a limit
